@@ -531,6 +531,36 @@ def rule_P5(repo: Repo) -> RuleResult:
                     src_names = {x.id for x in ast.walk(g.iter) if isinstance(x, ast.Name)}
         bad = sorted(s for s in src_names if s in tainted and _reaches_tainted_def(f, s, n, tainted))
         construct = f"<per-group results>[{norm(n.slice)}] in {f.qualname}"      # independent of the spelling of the indexed local
+        # a per-code table filled by a scatter  T[I] = A  with A in label-sorted order: I must be the codes in label order,
+        # i.e. derive from a subscript by self._labels_argsort
+        if isinstance(n.value, ast.Name) and tainted:
+            scat = [a for a in ast.walk(f.node) if isinstance(a, ast.Assign) and isinstance(a.targets[0], ast.Subscript)
+                    and isinstance(a.targets[0].value, ast.Name) and a.targets[0].value.id == n.value.id
+                    and not isinstance(a.value, ast.Constant)]
+            alldefs: Dict[str, List[ast.AST]] = {}
+            for a in ast.walk(f.node):
+                if isinstance(a, ast.Assign) and len(a.targets) == 1 and isinstance(a.targets[0], ast.Name):
+                    alldefs.setdefault(a.targets[0].id, []).append(a.value)
+
+            def label_permuted(e: ast.AST, depth: int = 0) -> bool:
+                # follow the array that is being indexed / filtered (never the selector): X[sel1][sel2], locals through their definitions
+                while isinstance(e, ast.Subscript):
+                    if attr_chain(e.slice) == ("self", "_labels_argsort"):
+                        return True
+                    e = e.value
+                if attr_chain(e) == ("self", "_labels_argsort"):
+                    return True                     # the permutation itself (an array of codes in label order)
+                if isinstance(e, ast.Name) and depth < 4:
+                    ds = alldefs.get(e.id, [])
+                    return bool(ds) and all(label_permuted(d, depth + 1) for d in ds)
+                return False
+            unperm = [a for a in scat if not label_permuted(a.targets[0].slice)]
+            if unperm:
+                res.bad(f, unperm[0], f"{norm(unperm[0])[:70]} in {f.qualname}",
+                        "per-group results in label-sorted order are scattered into the per-code table at positions that do not derive from "
+                        "self._labels_argsort: group i of the sorted order is stored as the result of code i (wrong whenever first appearance "
+                        "is not ascending)")
+                continue
         if bad:
             res.bad(f, n, construct,
                     f"the array indexed by the row codes derives from {bad} which carries the label-sorted / group-sorted "
@@ -615,6 +645,21 @@ def rule_P6(repo: Repo) -> RuleResult:
                 srcs |= {x.id for x in ast.walk(gen.iter) if isinstance(x, ast.Name)}
         feeds = _feeding_calls(g, srcs)
         trimmed = _slot_trimmed_before(g, srcs, n)
+        # the indexed array is itself a fresh per-code table with one extra slot:  t = np.full(self.ngroups + 1, null); t[codes] = ..
+        own_alloc = None
+        if isinstance(n.value, ast.Name):
+            for a in ast.walk(g.node):
+                if isinstance(a, ast.Assign) and len(a.targets) == 1 and isinstance(a.targets[0], ast.Name) and a.targets[0].id == n.value.id \
+                        and isinstance(a.value, ast.Call) and norm(a.value.func) in ("np.full", "np.zeros", "np.empty", "np.ones") and a.value.args:
+                    own_alloc = a
+        if own_alloc is not None and trimmed is None:
+            if _plus_one(own_alloc.value.args[0]) and norm(own_alloc.value.func) == "np.full":
+                res.ok(g, n, construct, f"{norm(own_alloc)[:70]}: a per-code table with a trailing null slot")
+            else:
+                res.bad(g, n, construct,
+                        f"the per-code table {norm(own_alloc)[:70]} indexed by the row codes has no trailing slot filled with the null value: "
+                        f"code -1 selects the last group's value for null-key rows")
+            continue
         if trimmed is not None:
             res.bad(g, trimmed, f"{norm(trimmed)[:80]} before {norm(n)}",
                     "the per-group arrays are cut to the number of labels before they are indexed by the row codes: the "
